@@ -3,6 +3,7 @@ package main
 // Translation of contract expressions into SMT terms over a pair of states (old, cur).
 
 import (
+	"regexp"
 	"fmt"
 	"go/token"
 	"go/types"
@@ -514,6 +515,25 @@ func (un *Unit) evBinary(e *EBinary, sc *Scope) SV {
 		return boolSV(eq(un.ev(e.X, sc).t, un.ev(e.Y, sc).t))
 	case "in":
 		x := un.ev(e.X, sc)
+		if c, ok := e.Y.(*ECall); ok && len(c.Args) == 1 && len(un.specs.GhostDefs[c.Fun]) > 0 {
+			// x in ghost(a) where ghost is defined as a comprehension for a's type: substitute instead of building the set
+			a := un.ev(c.Args[0], sc)
+			if d := un.ghostDefFor(c.Fun, a); d != nil {
+				if q, ok := d.E.(*EQuant); ok && q.Setof && len(q.Vars) == 1 {
+					inner := sc.child()
+					inner.vars = map[string]SV{d.Param: a, q.Vars[0].Name: x}
+					inner.bound = nil
+					if p := un.pkgByName(d.Pkg); p != nil {
+						inner.pkg = p
+					}
+					r := un.ev(q.Body, inner)
+					if inner.failed != nil && sc.failed == nil {
+						sc.failed = inner.failed
+					}
+					return boolSV(r.t)
+				}
+			}
+		}
 		y := un.ev(e.Y, sc)
 		if y.typ != nil {
 			if mt, ok := y.typ.Underlying().(*types.Map); ok {
@@ -676,6 +696,27 @@ func (un *Unit) evQuant(e *EQuant, sc *Scope) SV {
 	body := un.ev(e.Body, inner)
 	if inner.failed != nil && sc.failed == nil {
 		sc.failed = inner.failed
+	}
+	if e.Setof {
+		if len(e.Vars) != 1 {
+			return sc.fail("setof takes one variable")
+		}
+		_, ks, _ := sc.resolveType(e.Vars[0].Type)
+		srt := arraySort(ks, "Bool")
+		v := inner.vars[e.Vars[0].Name].t
+		def := and(and(guards...), body.t)
+		// the same comprehension over the same state is the same set: one constant, one defining axiom
+		key := srt + "|" + strings.ReplaceAll(def, v, "$v")
+		if un.setofMemo == nil {
+			un.setofMemo = map[string]string{}
+		}
+		a, seen := un.setofMemo[key]
+		if !seen {
+			a = un.u.freshConst("setof", srt)
+			un.setofMemo[key] = a
+			un.addFact(fmt.Sprintf("(forall (%s) (= (select %s %s) %s))", binds[0], a, v, def))
+		}
+		return SV{t: a, sort: srt, gtext: "set[" + e.Vars[0].Type + "]"}
 	}
 	g := and(guards...)
 	q := "forall"
@@ -1011,6 +1052,13 @@ func (un *Unit) evCall(e *ECall, sc *Scope) SV {
 			idx = "(- " + sel(un.get(sc.cur, recvd), x.t) + " 1)"
 		}
 		return SV{t: sel(un.get(sc.cur, log), x.t, idx), typ: elem}
+	case "off":
+		// off(b): the offset of slice b in its backing array
+		return intSV("(s_off " + arg(0).t + ")")
+	case "new":
+		// new(e) in a modifies clause: e evaluated in the state the callee leaves behind (a location reached through
+		// something the call itself assigns, e.g. the ghost state of a freshly linked list element)
+		return arg(0)
 	case "arr":
 		// arr(b): the backing array (the page, for mmap'd memory) of slice b
 		x := arg(0)
@@ -1087,6 +1135,40 @@ func (un *Unit) evCall(e *ECall, sc *Scope) SV {
 			}
 		}
 		return sc.fail("no recorded call %s", key)
+	case "ncalls":
+		// ncalls(callee): how many call sites of callee (under contract) the function under verification executes,
+		// inlined callees and callbacks included (a syntactic count over the unrolled body, not a run-time count)
+		callee := exprText(e.Args[0])
+		n := 0
+		if sc.fr != nil {
+			for k := range sc.fr.callRes {
+				if strings.HasPrefix(k, callee+"#") {
+					n++
+				}
+			}
+		}
+		return intSV(fmt.Sprint(n))
+	case "arg":
+		// arg(callee, k, name): the argument named `name` of the k-th call to callee in the function under verification
+		if len(e.Args) != 3 {
+			return sc.fail("arg(callee, k, name)")
+		}
+		callee := exprText(e.Args[0])
+		k, _ := strconv.Atoi(exprText(e.Args[1]))
+		pname := exprText(e.Args[2])
+		key := fmt.Sprintf("%s#%d", callee, k)
+		if sc.fr != nil {
+			if as, ok := sc.fr.callArgs[key]; ok {
+				if a, ok := as[pname]; ok {
+					if sc.retGuards != nil && a.callGuard != "" {
+						sc.retGuards[a.callGuard] = true
+					}
+					return SV{t: a.t, typ: a.typ}
+				}
+				return sc.fail("call %s has no argument named %s", key, pname)
+			}
+		}
+		return sc.fail("no recorded call %s", key)
 	case "mk":
 		// mk(T, f1, f2, ...): a value of struct type T with the given field values (positional)
 		if len(e.Args) < 1 {
@@ -1124,6 +1206,9 @@ func (un *Unit) evCall(e *ECall, sc *Scope) SV {
 				if g == "" {
 					g = "true"
 				}
+				if x.sort == "nil" {
+					return boolSV(and(g, un.isNilTest(SV{t: rs[i].t, typ: rs[i].typ})))
+				}
 				return boolSV(and(g, eq(rs[i].t, x.t)))
 			}
 		}
@@ -1147,6 +1232,26 @@ func (un *Unit) evCall(e *ECall, sc *Scope) SV {
 			return boolSV("false")
 		}
 		x := arg(0)
+		if d, y := un.ghostDefFor2(e.Fun, x); d != nil {
+			x = y
+			inner := sc.child()
+			inner.vars = map[string]SV{d.Param: x}
+			inner.bound = nil
+			if p := un.pkgByName(d.Pkg); p != nil {
+				inner.pkg = p
+			}
+			r := un.ev(d.E, inner)
+			if inner.failed != nil && sc.failed == nil {
+				sc.failed = inner.failed
+			}
+			if r.sort == "" && r.typ == nil {
+				r.sort = s
+			}
+			if r.gtext == "" {
+				r.gtext = g.Sort
+			}
+			return r
+		}
 		ks := x.sortIn(un.u)
 		c := un.comp("G_"+e.Fun, arraySort(ks, s), "ghost")
 		return SV{t: sel(un.get(sc.cur, c), x.t), sort: s, gtext: g.Sort}
@@ -1334,6 +1439,10 @@ func (un *Unit) applyContract(fr *Frame, st *State, fc *FuncContract, names []st
 		}
 		un.oblige(st, "pre", name, cl.Props, t, pos, cl.Text)
 	}
+	if un.preOnly {
+		// a spawned call: only its precondition is the spawner's business
+		return un.havocResults(st, sig, "spawned")
+	}
 	// frame
 	if !fc.Pure {
 		un.bumpNext(st)
@@ -1374,12 +1483,27 @@ func (un *Unit) applyContract(fr *Frame, st *State, fc *FuncContract, names []st
 		last = calleeKey[i+1:]
 		fr.callRes[fmt.Sprintf("%s#%d", last, ord)] = rvals
 	}
+	argRec := map[string]Val{}
+	for i, n := range names {
+		if i < len(args) {
+			a := args[i]
+			a.callGuard = pre.guard
+			if v, ok := sc.vars[n]; ok && v.typ != nil {
+				a.typ = v.typ
+			}
+			argRec[n] = a
+		}
+	}
+	fr.callArgs[fmt.Sprintf("%s#%d", shortKey(calleeKey), ord)] = argRec
+	fr.callArgs[fmt.Sprintf("%s#%d", last, ord)] = argRec
 	// calls made by inlined callees are also visible, in execution order, to the enclosing frames
 	for f := fr.parent; f != nil; f = f.parent {
 		f.calls[calleeKey]++
 		o := f.calls[calleeKey]
 		f.callRes[fmt.Sprintf("%s#%d", shortKey(calleeKey), o)] = rvals
 		f.callRes[fmt.Sprintf("%s#%d", last, o)] = rvals
+		f.callArgs[fmt.Sprintf("%s#%d", shortKey(calleeKey), o)] = argRec
+		f.callArgs[fmt.Sprintf("%s#%d", last, o)] = argRec
 	}
 	post := sc.child()
 	post.cur = st
@@ -1402,7 +1526,7 @@ func (un *Unit) applyContract(fr *Frame, st *State, fc *FuncContract, names []st
 		if cl.Kind != "ensures" {
 			continue
 		}
-		if strings.Contains(cl.Text, "ret(") || strings.Contains(cl.Text, "retis(") || strings.Contains(cl.Text, "acq(") {
+		if calleeInternalRe.MatchString(cl.Text) {
 			continue // speaks about the callee's internal calls / critical sections: checked there, meaningless to a caller
 		}
 		t, _ := un.evalSpec(cl.E, post)
@@ -1426,6 +1550,9 @@ func (un *Unit) applyContract(fr *Frame, st *State, fc *FuncContract, names []st
 	}
 	return res
 }
+
+// clauses that speak about the callee's own calls or critical sections (whole words only: not "randomsecret(")
+var calleeInternalRe = regexp.MustCompile(`(^|[^A-Za-z0-9_])(ret|retis|acq|arg|ncalls)\(`)
 
 func shortKey(k string) string {
 	// pkg.(*T).M -> (*T).M ; pkg.F -> F
@@ -1731,6 +1858,25 @@ func (un *Unit) applyCallback(fr *Frame, st *State, fc *FuncContract, names []st
 			cargs = append(cargs, Val{t: c, typ: pt})
 		}
 	}
+	// what the callee guarantees about the arguments it hands to the callback (cbassume clauses over cb_arg0.. and the
+	// callee's own parameters)
+	{
+		csc := &Scope{un: un, vars: map[string]SV{}, cur: run, old: run, pkg: un.pkgByName(fc.Pkg), fr: fr}
+		for i, n := range names {
+			if i < len(args) {
+				csc.vars[n] = SV{t: args[i].t, typ: args[i].typ}
+			}
+		}
+		for i, ca := range cargs {
+			csc.vars[fmt.Sprintf("cb_arg%d", i)] = SV{t: ca.t, typ: ca.typ}
+		}
+		for _, cl := range fc.Clauses {
+			if cl.Kind == "cbassume" {
+				t, _ := un.evalSpec(cl.E, csc)
+				un.assume(run, t)
+			}
+		}
+	}
 	var r Val
 	switch {
 	case fv.fn != nil:
@@ -1842,10 +1988,60 @@ func (un *Unit) attrFacts(ref string, fn *ssa.Function, binds []Val, st *State, 
 
 
 func mentionsResult(t string) bool {
-	for _, w := range []string{"result", "ret0", "ret1"} {
+	for _, w := range []string{"result", "ret0", "ret1", "new("} {
 		if strings.Contains(t, w) {
 			return true
 		}
 	}
 	return false
+}
+
+// ghostDefFor: the definition of ghost field name for x's static type, if x is a pointer to a concrete type that has one.
+func (un *Unit) ghostDefFor(name string, x SV) *GhostDef {
+	d, _ := un.ghostDefFor2(name, x)
+	return d
+}
+
+// ghostDefFor2 also resolves an interface value whose dynamic type is syntactically known, (mk_iface tag payload):
+// the definition for that concrete type applies to the payload.
+func (un *Unit) ghostDefFor2(name string, x SV) (*GhostDef, SV) {
+	ds := un.specs.GhostDefs[name]
+	if len(ds) == 0 || x.typ == nil {
+		return nil, x
+	}
+	if _, isIface := x.typ.Underlying().(*types.Interface); isIface && strings.HasPrefix(x.t, "(mk_iface ") {
+		rest := strings.TrimSuffix(strings.TrimPrefix(x.t, "(mk_iface "), ")")
+		if sp := strings.Index(rest, " "); sp > 0 {
+			var tag int
+			if _, err := fmt.Sscanf(rest[:sp], "%d", &tag); err == nil && tag != 0 {
+				if ct, ok := typeTagTypes[tag]; ok {
+					if _, isPtr := ct.Underlying().(*types.Pointer); isPtr {
+						y := SV{t: rest[sp+1:], typ: ct}
+						if d := un.ghostDefPtr(ds, y); d != nil {
+							return d, y
+						}
+					}
+				}
+			}
+		}
+		return nil, x
+	}
+	return un.ghostDefPtr(ds, x), x
+}
+
+func (un *Unit) ghostDefPtr(ds []*GhostDef, x SV) *GhostDef {
+	pt, ok := x.typ.Underlying().(*types.Pointer)
+	if !ok {
+		return nil
+	}
+	n := namedOf(pt.Elem())
+	if n == nil || n.Obj().Pkg() == nil {
+		return nil
+	}
+	for _, d := range ds {
+		if d.Type == n.Obj().Name() && d.Pkg == n.Obj().Pkg().Name() {
+			return d
+		}
+	}
+	return nil
 }
